@@ -191,6 +191,7 @@ def signature(ctx, drv, e, t, d, idx):
         shutil.rmtree(one['dir'], ignore_errors=True)
     else:
         sig['single_cu_platform'] = 'differs'
+    sig['kernel_launches'] = 'several' if len(e['obs']['insts']['launches'] or []) > 1 else 'one'
     if 'inst_sequences' in d or 'launch_count' in d or 'issued' in d:
         sig['kind'] = 'executed_instructions_differ'
         if 'inst_sequences' in d:
